@@ -164,7 +164,7 @@ def spec() -> Spec:
         generate=generate,
         extract=extract,
         nontrivial=nontrivial,
-        budget={"quick": 120, "thorough": 2000},
+        budget={"quick": 120, "thorough": 1500},
         search_budget={"quick": 400, "thorough": 5000},
         per_case_timeout=90.0,
         rule="alternating: (a) daemon states with 0-50 chunks (thorough: up to 400), 0-4 warnings (some containing LF, CR, backslash, "
